@@ -74,8 +74,10 @@ func resolveTypes(env *Environment, errorSink *validation.ErrorSink) *Environmen
 			err := resolveType(t, context.currentNamespace, context.symbolTable, true)
 			if err != nil {
 				errorSink.Add(validationError(t, "%s", err.Error()))
-				break
 			}
+			// the type arguments have been visited above: visiting them once more here made the
+			// pass exponential in the nesting depth of generic references
+			return
 		}
 
 		self.VisitChildren(node, context)
@@ -116,8 +118,8 @@ func convertGenericReferences(env *Environment, errorSink *validation.ErrorSink)
 			err := resolveType(t, context.currentNamespace, context.symbolTable, false)
 			if err != nil {
 				errorSink.Add(validationError(t, "%s", err.Error()))
-				break
 			}
+			return
 		}
 
 		self.VisitChildren(node, context)
